@@ -73,3 +73,11 @@ Example C07_chain :
   ln 2 (mkKey [Cls 2] []) = ORun 1 /\ ln 1 (mkKey [Cls 2] []) = ORun 0 /\ ln 0 (mkKey [Cls 2] []) = ONoMethod /\
   ln 2 (mkKey [Cls 1] []) = ORun 1.
 Proof. vm_compute. repeat split; reflexivity. Qed.
+
+(* non-vacuity of C07_walk_in_sorted_order: the three-rank chain above is a total chain *)
+Example C07_walk_nonvacuous :
+  exists cs, candidates (hsub wh) (hhasm wh) (hchk wh) (hfresh wh) wms (mkKey [Cls 2] []) = Ok cs /\
+             length cs = 3 /\ total_chain (sort_desc cs).
+Proof.
+  eexists. split; [vm_compute; reflexivity|]. split; [reflexivity|]. apply total_chainb_spec. vm_compute. reflexivity.
+Qed.
